@@ -1,0 +1,119 @@
+//go:build verif
+
+package dht
+
+import (
+	"context"
+	"net"
+	"time"
+
+	"github.com/anacrolix/dht/v2/int160"
+	"github.com/anacrolix/dht/v2/krpc"
+)
+
+// Hooks for the verification harness. Nothing here changes behaviour: the snapshot is read-only,
+// the ageing hook moves stored timestamps into the past (the same thing as time passing for every
+// time.Since comparison the package makes), and the rest expose unexported helpers.
+
+type VerifNode struct {
+	Bucket                     int // index of the bucket the entry was found in
+	Id                         [20]byte
+	Addr                       string
+	IP                         net.IP
+	Port                       int
+	LastGotQuery               time.Time
+	LastGotResponse            time.Time
+	FailedLastQuestionablePing bool
+	// The package's own verdicts, for comparison with an independent recomputation.
+	IsGood bool
+	IsBad  bool
+}
+
+type VerifTableSnapshot struct {
+	RootId [20]byte
+	K      int
+	Nodes  []VerifNode
+	// Copy of the address index: addr string -> IDs recorded for it.
+	Addrs map[string][][20]byte
+	// When the snapshot was taken, by the clock the liveness rules use.
+	Now time.Time
+}
+
+func (s *Server) VerifTable() (ret VerifTableSnapshot) {
+	s.mu.Lock()
+	defer s.mu.Unlock()
+	ret.RootId = s.table.rootID.AsByteArray()
+	ret.K = s.table.k
+	ret.Now = time.Now()
+	for i := range s.table.buckets {
+		for n := range s.table.buckets[i].nodes {
+			ret.Nodes = append(ret.Nodes, VerifNode{
+				Bucket:                     i,
+				Id:                         n.Id.AsByteArray(),
+				Addr:                       n.Addr.String(),
+				IP:                         append(net.IP(nil), n.Addr.IP()...),
+				Port:                       n.Addr.Port(),
+				LastGotQuery:               n.lastGotQuery,
+				LastGotResponse:            n.lastGotResponse,
+				FailedLastQuestionablePing: n.failedLastQuestionablePing,
+				IsGood:                     s.IsGood(n),
+				IsBad:                      s.nodeIsBad(n),
+			})
+		}
+	}
+	ret.Addrs = make(map[string][][20]byte, len(s.table.addrs))
+	for a, ids := range s.table.addrs {
+		l := make([][20]byte, 0, len(ids))
+		for id := range ids {
+			l = append(l, id.AsByteArray())
+		}
+		ret.Addrs[a] = l
+	}
+	return
+}
+
+// Makes every timestamp the routing table keeps d older, as if d had elapsed since the last event.
+// Zero timestamps ("never") stay zero.
+func (s *Server) VerifAge(d time.Duration) {
+	s.mu.Lock()
+	defer s.mu.Unlock()
+	age := func(t *time.Time) {
+		if !t.IsZero() {
+			*t = t.Add(-d)
+		}
+	}
+	for i := range s.table.buckets {
+		b := &s.table.buckets[i]
+		age(&b.lastChanged)
+		for n := range b.nodes {
+			age(&n.lastGotQuery)
+			age(&n.lastGotResponse)
+		}
+	}
+	age(&s.lastBootstrap)
+}
+
+// Sets the time source of the token server (nil restores time.Now).
+func (s *Server) VerifSetTokenClock(f func() time.Time) {
+	s.mu.Lock()
+	defer s.mu.Unlock()
+	s.tokenServer.timeNow = f
+}
+
+// Runs the ping that table maintenance sends to questionable entries; the only code path that
+// marks an entry as having failed it.
+func (s *Server) VerifQuestionablePing(ctx context.Context, addr Addr, id krpc.ID) QueryResult {
+	return s.questionableNodePing(ctx, addr, id)
+}
+
+// Bucket index the table computes for id under the given root. Panics for id == root, like the
+// table does.
+func VerifBucketIndex(root, id [20]byte) int {
+	t := table{rootID: int160.FromByteArray(root), k: 8}
+	return t.bucketIndex(int160.FromByteArray(id))
+}
+
+func VerifRandomIdInBucket(root [20]byte, bucketIndex int) [20]byte {
+	id := randomIdInBucket(int160.FromByteArray(root), bucketIndex)
+	return id.AsByteArray()
+}
